@@ -33,25 +33,25 @@ package dns
 //@   assert at "return len(s) + 1" plainlen: noesc(s) && unitsfrom(s, 0) == len(s)
 
 // character-strings: one length octet plus at most one octet per character (exactly, without escapes)
-//@ func packTxtString [C08 C01]
+//@ func packTxtString [C08 C01 C16]
 //@   requires 0 <= offset
 //@   ensures ok:  ret1 == nil ==> offset < ret0 && ret0 <= len(msg) && ret0 - offset <= len(s) + 1 && msg[offset] == ret0 - offset - 1 && ret0 - offset - 1 <= 255
 //@   ensures exact: ret1 == nil && noesc(s) ==> ret0 - offset == len(s) + 1
 //@   loop 1 invariant 0 <= i && old(offset) < offset && offset <= len(msg) && offset - old(offset) - 1 <= i && i <= len(s) && (noesc(s) ==> offset - old(offset) - 1 == i)
 //@   writes msg
-//@ func packString [C08 C01]
+//@ func packString [C08 C01 C16]
 //@   requires 0 <= off
 //@   ensures ok:  ret1 == nil ==> off < ret0 && ret0 <= len(msg) && ret0 - off <= len(s) + 1
 //@   ensures exact: ret1 == nil && noesc(s) ==> ret0 - off == len(s) + 1
 //@   ensures fail: ret1 != nil ==> ret0 == len(msg)
 //@   writes msg
 
-//@ func packStringHex [C08 C01]
+//@ func packStringHex [C08 C01 C16]
 //@   requires 0 <= off
 //@   ensures ok:  ret1 == nil ==> off <= ret0 && ret0 <= len(msg) && ret0 - off == len(s) / 2
 //@   ensures fail: ret1 != nil ==> ret0 == len(msg)
 //@   writes msg
-//@ func packStringAny [C08 C01]
+//@ func packStringAny [C08 C01 C16]
 //@   requires 0 <= off
 //@   ensures ok:  ret1 == nil ==> ret0 == off + len(s) && ret0 <= len(msg)
 //@   ensures fail: ret1 != nil ==> ret0 == len(msg)
